@@ -2,8 +2,8 @@
 """
 Self-test (not registered in MANIFEST): applies each single-line mutant of design-notes/mutants.md
 (patches prepared under a scratch directory) to /repo, runs the expected property's quick check, and
-reverts.  Requires a VIOLATION with a concrete failing input for every surviving mutant, and no
-alarm for the negative control M25.
+reverts.  Prints, per mutant and property, whether the check reported a failing input, a broken tie only,
+or nothing (expectations: design-notes/mutants.md; M09 and M25 are tie-only).
 """
 import os
 os.environ["VERIF_EVIDENCE_DIR"] = "/verif/.build/evidence-scratch"
